@@ -47,6 +47,8 @@ template <typename T> bool same(T a, T b)
 {
   if (std::is_floating_point<T>::value && a != a && b != b)
     return true;
+  if (std::is_floating_point<T>::value)
+    return std::memcmp(&a, &b, sizeof(T)) == 0;   // +0.0 and -0.0 are different results of the scalar operator
   return std::memcmp(&a, &b, sizeof(T)) == 0 || a == b;
 }
 
@@ -256,7 +258,15 @@ template <typename V, bool F> struct extra<V, F, true> {
     using T = typename V::scalar_t;
     { auto r = -a; CHECK_COMP("neg", r, (T)(-get(a, i)), showv(a)) }
     { auto r = abs(a); CHECK_COMP("abs", r, (T)std::abs(get(a, i)), showv(a)) }
-    (void)b;
+    // zeros of either sign: the scalar unary minus flips the sign bit of a floating-point zero
+    V z = a;
+    set(z, 0, (T)0);
+    set(z, 1, (T)(-(T)0));
+    { auto r = -z; CHECK_COMP("neg_zero", r, (T)(-get(z, i)), showv(z)) }
+    { auto r = +z; CHECK_COMP("pos_zero", r, (T)(+get(z, i)), showv(z)) }
+    { auto r = abs(z); CHECK_COMP("abs_zero", r, (T)std::abs(get(z, i)), showv(z)) }
+    { auto r = z * b; CHECK_COMP("mul_zero", r, (T)(get(z, i) * get(b, i)), showv(z) + " " + showv(b)) }
+    { auto r = z - z; CHECK_COMP("sub_zero", r, (T)(get(z, i) - get(z, i)), showv(z)) }
   }
 };
 
